@@ -100,3 +100,25 @@ def target_index(op):
 
 REGISTERS = ["r%d" % i for i in range(16)] + ["sp", "ra"]
 DEVICES = ["d%d" % i for i in range(6)] + ["db"]
+
+
+# Operand kinds of the device / slot / batch / stack access instructions, in the order IC10
+# writes them after the output register (trusted data, from the game's instruction reference).
+ACCESS_KINDS = {
+    "l": ["device", "logicType"],
+    "s": ["device", "logicType", "value"],
+    "ls": ["device", "slotIndex", "slotType"],
+    "ss": ["device", "slotIndex", "slotType", "value"],
+    "lb": ["deviceHash", "logicType", "batchMode"],
+    "lbn": ["deviceHash", "nameHash", "logicType", "batchMode"],
+    "lbs": ["deviceHash", "slotIndex", "slotType", "batchMode"],
+    "lbns": ["deviceHash", "nameHash", "slotIndex", "slotType", "batchMode"],
+    "sb": ["deviceHash", "logicType", "value"],
+    "sbn": ["deviceHash", "nameHash", "logicType", "value"],
+    "sbs": ["deviceHash", "slotIndex", "slotType", "value"],
+    "get": ["device", "address"],
+    "getd": ["device", "address"],
+    "put": ["device", "address", "value"],
+    "putd": ["device", "address", "value"],
+    "poke": ["address", "value"],
+}
